@@ -17,6 +17,7 @@ func VK01DiskpackedSeq() {
 	}
 	blobs := []vmodel.LinBlob{{Ref: vB0, Data: "a"}, {Ref: vB1, Data: "bb"}, {Ref: vB2, Data: ""}}
 	s := vOpen(&vmodel.KV{}, max)
+	vmodel.NoSweep = true // ranged fetches of this store: VK01gSubFetch / VK01gFetch at full 64-bit width
 	vmodel.SeqHistory(s, blobs, 0, 3)
 	vrt.Cover("done")
 }
